@@ -58,21 +58,22 @@ Qed.
 Definition reg_types (sc : sschema) (ty : string) : list string :=
   match kind_of sc ty with KOther => [ty] | _ => possible_of sc ty end.
 
-Lemma set_missing_mono sc ip a ty added : forall s x, In x s -> In x (set_missing sc ip a ty s added).
+Lemma set_missing_mono sc ip a ty sel added : forall s x, In x s -> In x (set_missing sc ip a ty sel s added).
 Proof.
   unfold set_missing. induction added as [|f r IH]; intros s x H; cbn [fold_left]; [exact H|]. apply IH.
   destruct (kind_of sc ty); [apply (sc_sets_mono (fun pt => (ip ++ [a], pt, f))), H
                             |apply (sc_sets_mono (fun pt => (ip ++ [a], pt, f))), H
                             |apply sc_set_mono, H].
 Qed.
-Lemma set_missing_in sc ip a ty added : forall s f T, In f added -> In T (reg_types sc ty) ->
-  In (ip ++ [a], T, f) (set_missing sc ip a ty s added).
+Lemma set_missing_in sc ip a ty sel added : forall s f T, In f added -> In T (reg_types sc ty) ->
+  (kind_of sc ty = KOther \/ frag_has sel T f = false) ->
+  In (ip ++ [a], T, f) (set_missing sc ip a ty sel s added).
 Proof.
-  unfold set_missing, reg_types. induction added as [|g r IH]; intros s f T Hf HT; [destruct Hf|]. cbn [fold_left].
+  unfold set_missing, reg_types. induction added as [|g r IH]; intros s f T Hf HT Hfr; [destruct Hf|]. cbn [fold_left].
   destruct Hf as [<-|Hf]; [|apply IH; assumption].
-  apply (set_missing_mono sc ip a ty r). destruct (kind_of sc ty).
-  - apply (sc_sets_in (fun pt => (ip ++ [a], pt, g))), HT.
-  - apply (sc_sets_in (fun pt => (ip ++ [a], pt, g))), HT.
+  apply (set_missing_mono sc ip a ty sel r). destruct (kind_of sc ty) eqn:K.
+  - destruct Hfr as [Hfr|Hfr]; [discriminate|]. apply (sc_sets_in (fun pt => (ip ++ [a], pt, g))). apply filter_In. split; [exact HT|]. rewrite Hfr. reflexivity.
+  - destruct Hfr as [Hfr|Hfr]; [discriminate|]. apply (sc_sets_in (fun pt => (ip ++ [a], pt, g))). apply filter_In. split; [exact HT|]. rewrite Hfr. reflexivity.
   - destruct HT as [<-|[]]. apply sc_set_in.
 Qed.
 
@@ -92,7 +93,7 @@ Lemma san_sel_field tm sc ip a n ty d x sub result scr :
   let '(child, sf) := sanitize tm sc (x :: sub) (ip ++ [a]) in
   let scr1 := sc_merge scr sf in
   let '(child', added) := add_scrub_fields tm sc child ty in
-  (add_to_result result [SanField a n ty d child'], set_missing sc ip a ty scr1 added).
+  (add_to_result result [SanField a n ty d child'], set_missing sc ip a ty child' scr1 added).
 Proof.
   cbn [san_sel]. rewrite level_go. rewrite sanitize_level. cbn [level fold_left].
   fold (level tm sc (ip ++ [a]) sub (san_sel tm sc (ip ++ [a]) x ([], []))).
@@ -151,22 +152,26 @@ Qed.
 (* the helper fields the sanitizer adds to the selection of this occurrence of a field *)
 Definition added_for (tm : tmap) (sc : sschema) (ip : list string) (a ty : string) (sub : list ssel) : list string :=
   snd (add_scrub_fields tm sc (fst (sanitize tm sc sub (ip ++ [a]))) ty).
+(* the selection of that occurrence after sanitizing and adding the helpers *)
+Definition selection_for (tm : tmap) (sc : sschema) (ip : list string) (a ty : string) (sub : list ssel) : list ssel :=
+  fst (add_scrub_fields tm sc (fst (sanitize tm sc sub (ip ++ [a]))) ty).
 
 Theorem added_helpers_are_registered tm sc : forall ss ip a n ty d x sub ip',
   occ ss ip (SanField a n ty d (x :: sub)) ip' ->
   forall f T, In f (added_for tm sc ip' a ty (x :: sub)) -> In T (reg_types sc ty) ->
+  (kind_of sc ty = KOther \/ frag_has (selection_for tm sc ip' a ty (x :: sub)) T f = false) ->
   In (ip' ++ [a], T, f) (snd (sanitize tm sc ss ip)).
 Proof.
   intros ss ip a n ty d x sub ip' Hocc. remember (SanField a n ty d (x :: sub)) as s eqn:Es.
   induction Hocc as [ss ip s Hin | ss ip a0 n0 ty0 d0 sub0 s ip' Hin Hocc IH | ss ip c o sub0 s ip' Hin Hocc IH];
-    intros f T Hf HT; rewrite sanitize_level; cbn [snd].
+    intros f T Hf HT Hfr; rewrite sanitize_level; cbn [snd].
   - subst s. apply unset_level_other; [|cbn [fst]; intros E; apply (f_equal (@List.length string)) in E; rewrite app_length in E; cbn in E; lia].
     apply in_split in Hin as (l1 & l2 & ->). unfold level. rewrite fold_left_app. cbn [fold_left].
     apply level_mono. match goal with |- context [san_sel _ _ _ _ ?acc] => destruct acc as [result scr] end. rewrite san_sel_field.
-    unfold added_for in Hf. destruct (sanitize tm sc (x :: sub) (ip ++ [a])) as [child sf]. cbn [fst] in Hf.
-    destruct (add_scrub_fields tm sc child ty) as [child' added]. cbn [snd] in *.
+    unfold added_for in Hf. unfold selection_for in Hfr. destruct (sanitize tm sc (x :: sub) (ip ++ [a])) as [child sf]. cbn [fst] in Hf, Hfr.
+    destruct (add_scrub_fields tm sc child ty) as [child' added]. cbn [fst snd] in *.
     apply set_missing_in; assumption.
-  - specialize (IH Es f T Hf HT). pose proof (occ_longer _ _ _ _ Hocc) as Hlen. rewrite app_length in Hlen. cbn in Hlen.
+  - specialize (IH Es f T Hf HT Hfr). pose proof (occ_longer _ _ _ _ Hocc) as Hlen. rewrite app_length in Hlen. cbn in Hlen.
     apply unset_level_other; [|cbn [fst]; intros E; apply (f_equal (@List.length string)) in E; rewrite app_length in E; cbn in E; lia].
     apply in_split in Hin as (l1 & l2 & ->). unfold level. rewrite fold_left_app. cbn [fold_left].
     apply level_mono. match goal with |- context [san_sel _ _ _ _ ?acc] => destruct acc as [result scr] end.
@@ -174,7 +179,7 @@ Proof.
     rewrite san_sel_field. destruct (sanitize tm sc (y :: sub0') (ip ++ [a0])) as [child sf]. cbn [snd] in IH.
     destruct (add_scrub_fields tm sc child ty0) as [child' added]. cbn [snd].
     apply set_missing_mono, sc_merge_right, IH.
-  - specialize (IH Es f T Hf HT). pose proof (occ_longer _ _ _ _ Hocc) as Hlen.
+  - specialize (IH Es f T Hf HT Hfr). pose proof (occ_longer _ _ _ _ Hocc) as Hlen.
     apply unset_level_other; [|cbn [fst]; intros E; apply (f_equal (@List.length string)) in E; rewrite app_length in E; cbn in E; lia].
     apply in_split in Hin as (l1 & l2 & ->). unfold level. rewrite fold_left_app. cbn [fold_left].
     apply level_mono. match goal with |- context [san_sel _ _ _ _ ?acc] => destruct acc as [result scr] end.
@@ -189,7 +194,7 @@ Qed.
 Lemma added_only_helpers tm sc ss t f : In f (snd (add_scrub_fields tm sc ss t)) -> f = "__typename" \/ f = "id".
 Proof.
   unfold add_scrub_fields.
-  destruct ((match kind_of sc t with KOther => false | _ => true end) && negb (contains ss "__typename")) eqn:E1.
+  destruct ((match kind_of sc t with KOther => false | _ => true end) && negb (has_direct ss "__typename")) eqn:E1.
   - match goal with |- context [if negb ?b then _ else _] => destruct (negb b) end; cbn [snd].
     + intros [<-|[]]. left. reflexivity.
     + destruct (contains (typename_helper :: ss) "id"); cbn [snd].
@@ -199,20 +204,29 @@ Proof.
     + intros [].
     + destruct (contains ss "id"); cbn [snd]; [intros []|intros [<-|[]]; right; reflexivity].
 Qed.
-Lemma added_not_selected tm sc ss t f : In f (snd (add_scrub_fields tm sc ss t)) -> contains ss f = false.
+Lemma has_direct_contains ss n : has_direct ss n = true -> contains ss n = true.
 Proof.
+  unfold has_direct, contains. intros H. apply existsb_exists in H as (x & Hx & Hn). apply existsb_exists. exists x.
+  split; [exact Hx|]. destruct x; [exact Hn|discriminate].
+Qed.
+(* a helper is added only when the client did not select that field on this level himself
+   (`id`: nor inside any fragment of this level) *)
+Lemma added_not_selected tm sc ss t f : In f (snd (add_scrub_fields tm sc ss t)) -> has_direct ss f = false.
+Proof.
+  assert (Hid : forall l, contains l "id" = false -> has_direct l "id" = false).
+  { intros l H. destruct (has_direct l "id") eqn:E; [|reflexivity]. apply has_direct_contains in E. congruence. }
   unfold add_scrub_fields.
-  destruct ((match kind_of sc t with KOther => false | _ => true end) && negb (contains ss "__typename")) eqn:E1.
+  destruct ((match kind_of sc t with KOther => false | _ => true end) && negb (has_direct ss "__typename")) eqn:E1.
   - apply andb_true_iff in E1 as [_ E1]. apply negb_true_iff in E1.
     match goal with |- context [if negb ?b then _ else _] => destruct (negb b) end; cbn [snd].
     + intros [<-|[]]. exact E1.
     + destruct (contains (typename_helper :: ss) "id") eqn:E2; cbn [snd].
       * intros [<-|[]]. exact E1.
-      * intros [<-|[<-|[]]]; [exact E1|]. cbn [contains existsb contains_field typename_helper] in E2.
+      * intros [<-|[<-|[]]]; [exact E1|]. apply Hid. cbn [contains existsb contains_field typename_helper] in E2.
         rewrite orb_false_iff in E2. apply E2.
   - match goal with |- context [if negb ?b then _ else _] => destruct (negb b) end; cbn [snd].
     + intros [].
-    + destruct (contains ss "id") eqn:E2; cbn [snd]; [intros []|intros [<-|[]]; exact E2].
+    + destruct (contains ss "id") eqn:E2; cbn [snd]; [intros []|intros [<-|[]]; apply Hid, E2].
 Qed.
 
 (* non-vacuity: { me { name friend { phone } } beings { ... on Pet { weight } } } on Human/Pet Node types, Being a union *)
